@@ -1249,7 +1249,10 @@ class C13(ValueTextMixin, Check):
         f = self.fold(' '.join(value_src.split()))
         if name == 'display' and f == 'run-in' and not expected:
             return 'C13-display-run-in'
-        # (single numbers / lengths / percentages / integers with a leading '+' are accepted since 7275f27: no region)
+        # (single numbers / lengths / percentages / integers with a leading '+' are accepted since 7275f27; what is left of
+        # the region: `opacity`, whose pattern is the token macro {num}, pinned by test_profiles)
+        if expected and name == 'opacity' and re.fullmatch(r'\+[0-9.]+', f):
+            return 'C13-plus-sign'
         if expected and re.fullmatch(r'rgb\(.*\)', f) and '+' in f:
             return 'C13-plus-sign'
         if expected and f in [self.fold(c) for c in CSS21_SYSTEM_COLORS]:
